@@ -324,6 +324,45 @@ def replay_login_live(label):
                 bad = 'session service answered the first join with %d: the attempts carried %r (the raw server id is %r)' \
                       % (status, attempts, 'srv')
                 break
+    if bad is None:
+        # the server id is hashed as the server sent it: ids with surrounding white space, empty, non-ASCII; only the exact
+        # id '-' means offline mode (seeded change C17-r16: the id stripped before the comparison and the hash)
+        from minecraft.networking.packets import PacketBuffer
+        from minecraft.networking.types import VarInt
+        for sid in (' lobby', '5b1f3a6c9d2e4f70 ', '\t-\n', '', '\u00e9\u4e16', '-'):
+            joined3, sent3 = [], []
+
+            class Sock3(object):
+                def send(self, d):
+                    sent3.append(bytes(d))
+            conn3 = native_connection()
+            conn3.context = ConnectionContext(protocol_version=757)
+            setattr(conn3, lock_name(), threading.RLock())
+            conn3.socket, conn3.file_object = Sock3(), types.SimpleNamespace()
+            conn3._outgoing_packet_queue = deque()
+            conn3.early_outgoing_packet_listeners, conn3.outgoing_packet_listeners = [], []
+            conn3.options = types.SimpleNamespace(compression_enabled=False, compression_threshold=-1)
+            conn3.auth_token = types.SimpleNamespace(join=lambda h, joined3=joined3: joined3.append(h))
+            pkt3 = clientbound.login.EncryptionRequestPacket()
+            pkt3.server_id, pkt3.public_key, pkt3.verify_token = sid, der, b'\x01\x02\x03\x04'
+            k, v = native_call(LoginReactor(conn3).react, pkt3, timeout=20)
+            try:
+                buf = PacketBuffer()
+                buf.send(b''.join(sent3))
+                buf.reset_cursor()
+                VarInt.read(buf)
+                VarInt.read(buf)
+                resp = serverbound.login.EncryptionResponsePacket(conn3.context)
+                resp.read(buf)
+                secret = key.decrypt(resp.shared_secret, asym_padding.PKCS1v15())
+            except Exception as e:      # noqa
+                bad = 'server id %r: %s %r, response unreadable (%r)' % (sid, k, v, e)
+                break
+            want = [] if sid == '-' else [encryption.generate_verification_hash(sid, secret, der)]
+            if k != 'ok' or joined3 != want:
+                bad = ('server id %r: the session service was given %r, the hash of the id as sent, the secret and the key is %r'
+                       % (sid, joined3, want))
+                break
     return dict(confirmed=bad is not None, n=1, call='LoginReactor.react(encryption request) with a real RSA-1024 key', observed=bad or 'conforms')
 
 
